@@ -399,8 +399,11 @@ class InProtocolBase(ProtocolMixin):
         else:
             microsec = min(999999, int(round(float(microsec) * 1e6)))
 
-        return time(int(fields['hr']), int(fields['min']),
+        try:
+            return time(int(fields['hr']), int(fields['min']),
                                                    int(fields['sec']), microsec)
+        except ValueError as e:
+            raise ValidationError(string, "%%r: %s" % str(e).replace("%", "%%"))
 
     def time_from_bytes(self, cls, string):
         if isinstance(string, six.binary_type):
@@ -424,7 +427,10 @@ class InProtocolBase(ProtocolMixin):
                 month = int(match.group('month'))
                 day = int(match.group('day'))
 
-                return date(year, month, day)
+                try:
+                    return date(year, month, day)
+                except ValueError:
+                    pass
 
             raise ValidationError(string)
 
@@ -499,10 +505,13 @@ class InProtocolBase(ProtocolMixin):
         except ValueError as e:
             match = cls._offset_re.match(string)
             if match:
-                return date(int(match.group('year')),
+                try:
+                    return date(int(match.group('year')),
                             int(match.group('month')), int(match.group('day')))
-            else:
-                raise ValidationError(string,
+                except ValueError as e2:
+                    e = e2
+
+            raise ValidationError(string,
                                          "%%r: %s" % repr(e).replace("%", "%%"))
 
     def date_from_unicode(self, cls, string):
@@ -517,11 +526,14 @@ class InProtocolBase(ProtocolMixin):
         except ValueError as e:
             match = cls._offset_re.match(string)
             if match:
-                return date(int(match.group('year')),
+                try:
+                    return date(int(match.group('year')),
                             int(match.group('month')), int(match.group('day')))
-            else:
-                # the message from ValueError is quite nice already
-                raise ValidationError(e.message, "%s")
+                except ValueError as e2:
+                    e = e2
+
+            raise ValidationError(string,
+                                         "%%r: %s" % repr(e).replace("%", "%%"))
 
     def duration_from_unicode(self, cls, string):
         match = _duration_re.match(string)
@@ -676,7 +688,11 @@ def _parse_datetime_iso_match(date_match, tz=None):
         # datetime can handle.
         usecond = min(999999, int(round(float(usecond) * 1e6)))
 
-    return datetime(year, month, day, hour, minute, second, usecond, tz)
+    try:
+        return datetime(year, month, day, hour, minute, second, usecond, tz)
+    except ValueError as e:
+        raise ValidationError(date_match.string,
+                                   "%%r: %s" % str(e).replace("%", "%%"))
 
 
 _dt_sec = lambda cls, val: \
